@@ -76,7 +76,9 @@ def parsePackHeader (rb : Bytes) (index : Nat) : GoM (Option Nat) :=
   if rb.length ≤ index + 9 then .ok none else
   match idx? "parsePackHeader rb[i]" rb (index + 9) with
   | .error f => .error f
-  | .ok x => .ok (some (10 + x.toNat % 8))
+  | .ok x =>
+    -- the stuffing bytes are not all there yet: wait for the next rtp packet
+    if rb.length < index + 10 + x.toNat % 8 then .ok none else .ok (some (10 + x.toNat % 8))
 
 /-- `parsePackStreamBody(rb, index)` -/
 def parsePackStreamBody (rb : Bytes) (index : Nat) : GoM (Option Nat) :=
@@ -138,9 +140,9 @@ def onAvPacketWrap (w : Bool) (o : Out) : GoM (Bool × List Out) :=
   if o.pt = 96 ∨ o.pt = 98 then
     match iterateNaluStartCode o.payload 0 with
     | none => .ok (w, [])
-    | some (_, leading) =>
-      if o.payload.length ≤ leading then .ok (w, []) else
-      match idx? "onAvPacketWrap Payload[leading]" o.payload leading with
+    | some (pos, length) =>
+      if pos + length ≥ o.payload.length then .ok (w, []) else
+      match idx? "onAvPacketWrap Payload[pos+length]" o.payload (pos + length) with
       | .error f => .error f
       | .ok h =>
         let typ := if o.pt = 96 then h.toNat % 32 else h.toNat / 2 % 64
@@ -206,6 +208,11 @@ def audioDecision (s : Dm) (rt pts0 : Int) : Bool × Int :=
   else
     if pts0 ≠ s.preAudioPts ∧ s.preAudioPts ≥ 0 then (true, pts0) else (false, pts0)
 
+/-- audio: the dts to remember. A PES packet without PTS behind one that had a PTS continues the same frame and takes
+    over its dts as well as its pts (`pts = p.preAudioPts; dts = p.preAudioDts`); the video branch takes over the pts only. -/
+def audioDts (s : Dm) (pts0 dts : Int) : Int :=
+  if pts0 = -1 ∧ s.preAudioPts ≠ -1 then s.preAudioDts else dts
+
 /-- the audio branch of `parseAvStream` once the PES header is read -/
 def avAudio (s : Dm) (rt pts0 dts : Int) (payload : Bytes) : GoM (Dm × List Out) :=
   if s.audioStreamType = 15 ∨ s.audioStreamType = 144 ∨ s.audioStreamType = 145 then
@@ -213,8 +220,10 @@ def avAudio (s : Dm) (rt pts0 dts : Int) (payload : Bytes) : GoM (Dm × List Out
       match onAvPacketWrap s.waitSps { pt := s.audioPt, ts := s.preAudioDts.tdiv 90, pts := s.preAudioPts.tdiv 90, payload := s.audioBuf } with
       | .error f => .error f
       | .ok (w, o) =>
-        .ok ({ s with waitSps := w, audioBuf := payload, preAudioRtpts := rt, preAudioPts := (audioDecision s rt pts0).2, preAudioDts := dts }, o)
-    else .ok ({ s with audioBuf := s.audioBuf ++ payload, preAudioRtpts := rt, preAudioPts := (audioDecision s rt pts0).2, preAudioDts := dts }, [])
+        .ok ({ s with waitSps := w, audioBuf := payload, preAudioRtpts := rt, preAudioPts := (audioDecision s rt pts0).2,
+                      preAudioDts := audioDts s pts0 dts }, o)
+    else .ok ({ s with audioBuf := s.audioBuf ++ payload, preAudioRtpts := rt, preAudioPts := (audioDecision s rt pts0).2,
+                       preAudioDts := audioDts s pts0 dts }, [])
   else .ok (s, [])
 
 /-- video: (timestamp to hand the cached frame over with, if it is complete; pts to remember) -/
